@@ -83,6 +83,16 @@ FMergeAfterFailedCommit ==
   /\ commd' = ObsDocs(Ev.obs) /\ metaop' = Ev.obs.metaop /\ payload' = Ev.obs.payload
   /\ UNCHANGED <<pend, lo, wopen, wCreated, dirty, sorted, kf, faultSeen>>
 
+\* F40, second face: the stale in-memory metas of a failed commit are what a background merge writes
+\* back (old opstamp, new segments); a writer created afterwards starts from that opstamp
+FNewWriterAfterFailedCommit ==
+  /\ Ev.ev = "new_writer" /\ Ev.ok /\ ~wopen /\ dirtyCommit
+  /\ "commit_opstamp" \in DOMAIN Ev /\ Ev.commit_opstamp # metaop
+  /\ Known("F40 a merge after a failed commit publishes segments of the failed commit")
+  /\ wopen' = TRUE /\ lo' = Ev.commit_opstamp /\ wCreated' = Ev.commit_opstamp /\ metaop' = Ev.commit_opstamp
+  /\ pend' = commd /\ dirty' = FALSE
+  /\ UNCHANGED <<commd, payload, sorted, kf, faultSeen>>
+
 FSummary == Ev.ev = "summary" /\ Same /\ UNCHANGED faultSeen
 
 \* a dropped writer under a fault may leave its lock file if the delete itself failed: the harness
@@ -97,9 +107,9 @@ FStep ==
 \* successful calls follow CoreTrace unchanged; a successful merge keeps the content (TMerge)
 FMergeStep ==
   /\ l <= Len(Rec) /\ l' = l + 1 /\ UNCHANGED calling
-  /\ (FMergeFail \/ FMergeAfterFailedCommit)
+  /\ (FMergeFail \/ FMergeAfterFailedCommit \/ FNewWriterAfterFailedCommit)
 DirtyNext == dirtyCommit' = CASE Ev.ev \in {"commit", "prepare_commit"} /\ ~Ev.ok /\ Ev.err # "nowriter" -> TRUE
-                                [] Ev.ev \in {"reset", "rollback", "prepare_abort", "drop_writer", "new_writer", "wait_merges", "heal"} -> FALSE
+                                [] Ev.ev \in {"reset", "rollback", "prepare_abort", "new_writer", "heal"} -> FALSE
                                 [] OTHER -> dirtyCommit
 FNext == ((TNext /\ (Ev.ev = "merge" => Ev.ok) /\ faultSeen' = (IF Ev.ev = "reset" THEN FALSE ELSE faultSeen)) \/ FStep \/ FMergeStep) /\ DirtyNext
 FInit == TInit /\ faultSeen = FALSE /\ dirtyCommit = FALSE
